@@ -10,7 +10,7 @@ THEOREMS = ['Jug.C01.exec_sound', 'Jug.C01.loads_are_reference', 'Jug.C01.load_e
 
 def extract():
     from jugverif import extract_worker as W
-    core.write_generated('WorkerPaths', W.emit(W.all_paths()))
+    core.write_generated('WorkerPaths', W.emit(W.all_paths(thorough=True)))
 
 
 def run_one(run, drv, P, scratch, params):
